@@ -47,19 +47,28 @@ import (
 // c42PooledHash extracts the transaction hash from the stored encoding of a BlobTxForPool ([tx-bytes, cell-sidecar])
 // without decoding the 256 KiB of cells.
 func c42PooledHash(data []byte) (common.Hash, error) {
-	content, _, err := rlp.SplitList(data)
+	tx, err := c42PooledTx(data)
 	if err != nil {
-		return common.Hash{}, err
-	}
-	txb, _, err := rlp.SplitString(content)
-	if err != nil {
-		return common.Hash{}, err
-	}
-	tx := new(types.Transaction)
-	if err := tx.UnmarshalBinary(txb); err != nil {
 		return common.Hash{}, err
 	}
 	return tx.Hash(), nil
+}
+
+// c42PooledTx decodes only the transaction part of a stored BlobTxForPool.
+func c42PooledTx(data []byte) (*types.Transaction, error) {
+	content, _, err := rlp.SplitList(data)
+	if err != nil {
+		return nil, err
+	}
+	txb, _, err := rlp.SplitString(content)
+	if err != nil {
+		return nil, err
+	}
+	tx := new(types.Transaction)
+	if err := tx.UnmarshalBinary(txb); err != nil {
+		return nil, err
+	}
+	return tx, nil
 }
 
 // c42LimboEntry decodes owner hash, block and the embedded transaction's hash of a stored limboBlob ([hash, block, ptx]).
@@ -710,6 +719,23 @@ func (s *c42Sys) apply(op *c42Op) error {
 	case "add":
 		t := c42Table[op.tx]
 		ai := t.acct
+		// admission vs funds: once the stateless checks pass and the nonce lies in [state nonce, first gap], the pool
+		// must answer "insufficient funds" exactly when the balance does not cover the recomputed expenditure of the
+		// pooled transactions (minus a replaced one) plus the new cost
+		if first := h.nonce[ai] + uint64(len(pre.idx[ai])); t.tip >= s.tip && t.nonce >= h.nonce[ai] && t.nonce <= first {
+			need := t.cost
+			for _, x := range pre.idx[ai] {
+				if c42Table[x].nonce != t.nonce {
+					need += c42Table[x].cost
+				}
+			}
+			over := need > h.bal[ai]
+			if got := errors.Is(addErr, core.ErrInsufficientFunds); got != over {
+				return fmt.Errorf("add %s: balance %d, pooled expenditure + new cost %d: insufficient-funds answer %v, expected %v (err: %v)", t.name, h.bal[ai], need, got, over, addErr)
+			}
+		} else if errors.Is(addErr, core.ErrInsufficientFunds) {
+			return fmt.Errorf("add %s rejected for insufficient funds although another check applies first (nonce %d, state nonce %d, first gap %d, tip %d, pool tip %d)", t.name, t.nonce, h.nonce[ai], first, t.tip, s.tip)
+		}
 		if addErr != nil {
 			for x := range c42Accts {
 				if c42Names(pre.idx[x]) != c42Names(post.idx[x]) || c42Names(pre.gapped[x]) != c42Names(post.gapped[x]) {
@@ -978,7 +1004,7 @@ func (s *c42Sys) inspect() (*c42Snap, error) {
 			if m.costCap.Uint64() != t.cost || m.execTipCap.Uint64() != t.tip || m.execFeeCap.Uint64() != t.feeCap || m.blobFeeCap.Uint64() != t.blobFee {
 				fail("metadata of %s does not match the transaction", t.name)
 			}
-			spent.Add(spent, m.costCap)
+			spent.Add(spent, uint256.NewInt(t.cost)) // from the transaction itself, never from the in-memory metadata
 			stored += uint64(m.storageSize)
 			if uint64(m.storageSize) != s.slotSize {
 				fail("storage size of %s is %d, slot size %d", t.name, m.storageSize, s.slotSize)
@@ -1004,7 +1030,29 @@ func (s *c42Sys) inspect() (*c42Snap, error) {
 				fail("rolling eviction minima of %s are stale: tip %v (want %v) feeJumps %.3f (want %.3f) blobJumps %.3f (want %.3f)", t.name, m.evictionExecTip, minTip, m.evictionExecFeeJumps, minFee, m.evictionBlobFeeJumps, minBlob)
 			}
 		}
-		// (2) affordable in total
+		// (2) affordable in total; the tracked expenditure equals the sum over the pooled transactions, recomputed from
+		// the transactions as stored on disk (the in-memory cost caps are checked against the same source)
+		if !s.light {
+			fromStore := new(uint256.Int)
+			for _, m := range metas {
+				data, err := p.store.Get(m.id)
+				if err != nil {
+					continue // reported under (3)
+				}
+				tx, err := c42PooledTx(data)
+				if err != nil {
+					continue
+				}
+				cost := uint256.MustFromBig(tx.Cost())
+				fromStore.Add(fromStore, cost)
+				if !m.costCap.Eq(cost) {
+					fail("in-memory cost cap of %s is %v, the stored transaction costs %v", c42NameOfHash(m.hash), m.costCap, cost)
+				}
+			}
+			if p.spent[a.addr] == nil || !p.spent[a.addr].Eq(fromStore) {
+				fail("tracked expenditure of %s is %v, the stored transactions sum to %v", a.name, p.spent[a.addr], fromStore)
+			}
+		}
 		if p.spent[a.addr] == nil || !p.spent[a.addr].Eq(spent) {
 			fail("tracked expenditure of %s is %v, recomputed %v", a.name, p.spent[a.addr], spent)
 		}
@@ -1362,6 +1410,24 @@ func c42Scenarios(r *mc.R) []*c42Scenario {
 			ops: mc.Pick(r,
 				[]string{"inc:A", "revert", "final", "restart", "inc:B"},
 				[]string{"inc:A", "incx:A", "incd:A", "inc:B", "revert", "final", "restart", "add:A2"}),
+		},
+		{
+			// a transaction that sits in the limbo as the only trace of its account: reorg re-injects it as the sole
+			// pooled transaction, the account extends the sequence, it is included again, more is submitted on a
+			// drained balance, restart
+			name: "reinject", slots: 4, depthQ: 3, depthT: 5,
+			init: []string{"add:A0", "inc:A"},
+			ops: mc.Pick(r,
+				[]string{"revert", "add:A1", "incd:A", "add:A2h", "restart"},
+				[]string{"revert", "add:A1", "inc:A", "incd:A", "add:A2", "add:A2h", "add:A1h", "restart"}),
+		},
+		{
+			// the same one step further: included, reverted, re-injected
+			name: "reinjected", slots: 4, depthQ: 4, depthT: 5,
+			init: []string{"add:A0", "inc:A", "revert"},
+			ops: mc.Pick(r,
+				[]string{"add:A1", "incd:A", "add:A2h", "restart"},
+				[]string{"add:A1", "inc:A", "incd:A", "add:A2", "add:A2h", "add:A0h", "revert", "restart"}),
 		},
 		{
 			// gapped reorder buffer (A may park one transaction), replacement inside a sequence, restart drops the buffer
